@@ -69,7 +69,11 @@ JudgeObs(e, o, keys) ==
 -----------------------------------------------------------------------------
 (* Events *)
 
-TReset(e) == /\ store' = Empty /\ memo12' = Empty /\ memo13' = Empty /\ poison' = FALSE
+\* a new scenario: new parser instances.  The memos survive: content identities are global, and a result
+\* is a function of the (id, content) pairs (C11 / C12) resp. of (id, content, import facts) (C13) whatever the
+\* scenario - so the control cases "the facts changed, the result must follow" are compared with the results
+\* other scenarios obtained under those facts
+TReset(e) == /\ store' = Empty /\ UNCHANGED <<memo12, memo13>> /\ poison' = FALSE
 
 Abnormal(e) == e.out # "ok"
 
